@@ -43,7 +43,7 @@ Definition cli_run (cfg : config) (files : list (text * text)) (stdin0 : text) (
         if c_check cfg then mkCli 0 [] false
         else
           (* 5. execute; both execute() and execute_with_debug() run the same statements *)
-          let o := mkOracle (o_libm orc0) (o_draws orc0) (o_clock orc0) files in
+          let o := mkOracle (o_libm orc0) (o_draws orc0) (o_clock orc0) files (o_fs orc0) in
           match block_top (exec run_fuel_cli) prog (fresh_state [] [] input o dir) with
           | ROk _ st =>
             (* 6. debug text (if any) goes to standard error *)
@@ -64,7 +64,7 @@ Definition completes (src dir input : text) (files : list (text * text)) (orc0 :
     match parse_tokens ts with
     | ParseOk prog =>
       match block_top (exec run_fuel_cli) prog
-                      (fresh_state [] [] input (mkOracle (o_libm orc0) (o_draws orc0) (o_clock orc0) files) dir) with
+                      (fresh_state [] [] input (mkOracle (o_libm orc0) (o_draws orc0) (o_clock orc0) files (o_fs orc0)) dir) with
       | ROk _ _ => true | _ => false
       end
     | _ => false
